@@ -343,4 +343,10 @@ example : pStatements .HIVE (fuelFor (C10.script TDM.semiTok ([k1, k2, C03.Dml.d
     (C10.script TDM.semiTok ([k1, k2, C03.Dml.d0, .createTable C18.t1, .select q2w2c, k3, k4, k5].map (toksAny .HIVE)) true) =
     .ok [k1, k2, C03.Dml.d0, .createTable C18.t1, .select q2w2c, k3, k4, k5] :=
   tscript_any .HIVE _ (by decide) true
+def l7 : Stmt := .delete (tn "t") (some (.compare "GT" (.extract (col "year") (col "ts")) (lit "2000"))) none none
+set_option maxRecDepth 100000 in
+/-- data-change statements outside the old fragment: `DELETE FROM t WHERE m['k'] = 1` (an array index), `DELETE … WHERE EXTRACT(year FROM ts) > 2000` -/
+example : pStatements .HIVE (fuelFor (C10.script TDM.semiTok ([l3, l7].map (toksAny .HIVE)) false)) (C10.script TDM.semiTok ([l3, l7].map (toksAny .HIVE)) false) =
+    .ok [l3, l7] :=
+  tscript_any .HIVE _ (by decide) false
 end C03.Rest
